@@ -150,6 +150,10 @@ theorem args_left_to_right_once (rec : Rec) (e : Expr) (es : List Expr) (env : E
   rw [h₁]; simp only [StateT.bind]
   rw [h₂]; rfl
 
+example : (evalList (eval {} 3) [.lit (.i64 1), .lit (.i64 2)] []).run {} =
+    some (.ok [.int .w64 1, .int .w64 2], {}) :=
+  args_left_to_right_once (eval {} 3) _ _ [] {} {} {} (.int .w64 1) [.int .w64 2] rfl rfl
+
 /-- if an argument stops (traps, exits, …) the arguments to its right are not evaluated: the state in
     which the call stops is the state in which that argument stopped -/
 theorem args_stop_at_first_trap (rec : Rec) (e : Expr) (es : List Expr) (env : Env) (s s₁ : St)
@@ -183,6 +187,11 @@ theorem struct_copy_independent (p : Prog) (n f : String) (fs : List Val) (field
   simp [selSet, selGet, hdecl, hidx, hi, ExceptT.run, bind, ExceptT.bind, ExceptT.mk, StateT.bind,
     ExceptT.bindCont, pure, ExceptT.pure, StateT.pure]
 
+example : (selSet { structs := [("P", [("x", .i64), ("y", .i64)])] } [.field "y"]
+      (.struct "P" [.int .w64 1, .int .w64 2]) (.int .w64 9)).run {} =
+    some (.ok (.struct "P" [.int .w64 1, .int .w64 9]), {}) :=
+  struct_copy_independent _ "P" "y" _ [("x", .i64), ("y", .i64)] 1 (.int .w64 2) _ {} rfl rfl rfl
+
 /-- writing one variable's cell leaves every other cell as it was -/
 theorem cells_independent (c₁ c₂ : Nat) (v : Val) (s : St) (h : c₁ ≠ c₂) :
     ((writeCell c₁ v).run s).map (fun r => r.2.cells[c₂]?) = some (s.cells[c₂]?) := by
@@ -208,6 +217,11 @@ theorem class_alias_shared (p : Prog) (cls f : String) (fs : List Val) (fields :
       liftM, monadLift, MonadLift.monadLift, ExceptT.lift, StateT.get, Functor.map, StateT.map, modify, modifyGet,
       MonadStateOf.modifyGet, StateT.modifyGet]
   · simp [Array.getElem?_setIfInBounds_self_of_lt ha]
+
+example : ∃ s', (selSet { classes := [("C", [("v", .i64)])] } [.field "v"] (.ref 0) (.int .w64 9)).run
+      { heap := #[.obj "C" [.int .w64 3]] } = some (.ok (.ref 0), s') ∧
+      s'.heap[0]? = some (.obj "C" [.int .w64 9]) ∧ s'.cells = #[] :=
+  class_alias_shared _ "C" "v" [.int .w64 3] [("v", .i64)] 0 0 (.int .w64 3) _ _ rfl rfl rfl rfl
 
 /-! ## the optimizer's algebraic simplifications preserve value and trap -/
 
